@@ -206,6 +206,45 @@ def count_member1(args):
     return None
 
 
+def is_ground(e):
+    if isinstance(e, list):
+        return all(is_ground(x) for x in e[1:])
+    return isinstance(e, int) or e == "nil"
+
+
+def glist(e):
+    """the elements of a ground proper list, else None"""
+    if e == "nil":
+        return []
+    if isinstance(e, list) and e[0] == "list" and is_ground(e):
+        return e[1:]
+    return None
+
+
+def isvar(e):
+    return isinstance(e, str) and e != "nil"
+
+
+def count_append(args):
+    l, s_, ls = glist(args[0]), glist(args[1]), glist(args[2])
+    if l is not None and s_ is not None:
+        # forward mode: exactly one answer (or none when the third argument is ground and different)
+        if ls is not None:
+            return 1 if l + s_ == ls else 0
+        if isvar(args[2]):
+            return 1
+    if ls is not None and isvar(args[0]) and isvar(args[1]) and args[0] != args[1]:
+        return len(ls) + 1          # every split once
+    return None
+
+
+def count_rember(args):
+    l = glist(args[1])
+    if isinstance(args[0], int) and l is not None and all(isinstance(x, int) for x in l) and isvar(args[2]):
+        return 1
+    return None
+
+
 def known(case, failure, known_ids):
     if case.get("rel") == "permute" and "permute_not_permutation" in known_ids:
         return "permute_not_permutation"
@@ -221,7 +260,7 @@ def run(tier, seed, replay=None):
             used, listvars = set(), set()
             args = [gen_arg(rnd, p in LISTPOS[rel], used, listvars) for p in range(ARITY[rel])]
             q = QV[: max([QV.index(v) for v in used] + [0]) + 1]
-            cx = {"member": count_member, "member1": count_member1}.get(rel)
+            cx = {"member": count_member, "member1": count_member1, "append": count_append, "rember": count_rember}.get(rel)
             cases.append(mk_case([], q, [["lib", rel] + args], maxans=30, budget=700, rel=rel, args=args, count_exact=cx, listvars=sorted(listvars)))
     return pcheck.run_check("C24", tier, seed, cases, "exact", oracle, cone=["Proofs/EngineProofs.vo", "Gen/RelDefs.vo", "Proofs/SemProofs.vo", "Proofs/MonoProofs.vo", "Proofs/RelSound.vo", "Proofs/RelSound2.vo", "Proofs/LibComplete.vo", "Proofs/LibCor.vo"], replay=replay,
         rule="for each of member, member1, append, rember, permute, distinct, cons, first, rest, empty: random argument modes (each argument "
